@@ -80,6 +80,7 @@ def key_of(v):
 def main(tier, seed):
     from framework import Runner, Query
     R = Runner('C09', tier, seed); R.setup()
+    R.blocks = models_str.STD_BLOCKS if tier == 'quick' else None       # quick: names over Latin, CJK, fullwidth and pictograph blocks; thorough: all of Unicode
     quick = tier == 'quick'
     c01.load_keywords(R)
     R.assumptions += ['tokens = atoms (prefix+name), brackets, separators, connecters, copulas, punctuation, whole stamps, truth/budget brackets, numbers and separators; no space is inserted inside an atom or inside a stamp',
@@ -92,7 +93,6 @@ def main(tier, seed):
     for fmt in FORMATS:
         plist = []
         for nm, sp in shapes:
-            if fmt == 'han' and quick: sp = c01.subst_names_partial(sp)
             for pipeline in ('enum', 'fold'):
                 pats = ['none', ('all', 1), ('all', 2)] if (not quick or pipeline == 'enum') else ['none', ('all', 1)]
                 for p in pats:
